@@ -576,7 +576,7 @@ var cfgByType = func() map[string][]int {
 	return m
 }()
 
-func genMember(r *c.Rng, cfg int, member int) scenario {
+func genMember(w *world, r *c.Rng, cfg int, member int) scenario {
 	cur = genCtx{cfg: cfgPool[cfg], member: member}
 	prov := cfgPool[cfg].Type
 	var sc scenario
@@ -594,11 +594,12 @@ func genMember(r *c.Rng, cfg int, member int) scenario {
 		sc.Later = 1 + r.Intn(5)
 	}
 	sc.Note = "tok{" + n1 + "} userinfo{" + n2 + "}"
+	w.prepare(&sc)
 	return sc
 }
 
 // gen draws one group: a provider configuration, 1-4 logins in flight at once, a release order
-func gen(r *c.Rng) group {
+func gen(w *world, r *c.Rng) group {
 	for {
 		typ := r.Pick([]string{"google", "google", "okta", "cognito"})
 		ids := cfgByType[typ]
@@ -616,11 +617,11 @@ func gen(r *c.Rng) group {
 			k = 4
 		}
 		for i := 0; i < k; i++ {
-			m := genMember(r, g.Cfg, i)
+			m := genMember(w, r, g.Cfg, i)
 			if k > 1 && i > 0 && r.Chance(0.5) {
 				// several good logins at once are the interesting groups: bias towards usable answers
 				for t := 0; t < 3 && tokenKey(m) == ""; t++ {
-					m = genMember(r, g.Cfg, i)
+					m = genMember(w, r, g.Cfg, i)
 				}
 			}
 			g.Members = append(g.Members, m)
